@@ -249,6 +249,9 @@ type Shape struct {
 	// %N is replaced by the struct name.
 	User   string
 	UserID string
+	// ExtraFile, if set, is a second source file of the package (it may import the same package
+	// names with a different meaning); %N is replaced by the struct name.
+	ExtraFile string
 	// Has lists, for the user-defined family, nothing special: the user-written members are
 	// semantically what gombok would have generated, so the same laws apply.
 }
@@ -603,7 +606,7 @@ func UserDefined() []*Shape {
 // `type Level int`. option, as, fp, fmt, json and http are the packages gombok's value generator
 // imports into the generated file (read off NewImportPackage in cmd/gombok/gombok.go); seq, hlist
 // and product are imported by the derive generator only and serve as controls here.
-var CollidePkgs = []string{"option", "as", "fp", "fmt", "json", "http", "seq", "hlist", "product"}
+var CollidePkgs = []string{"option", "as", "fp", "fmt", "json", "http", "seq", "hlist", "product", "image"}
 
 func collideKind(pkg string, emb bool) *Kind {
 	k := &Kind{ID: "x-" + pkg, Type: pkg + ".Level", Imports: []string{"scratchmod/x/" + pkg}, Collide: pkg,
@@ -618,39 +621,73 @@ func collideKind(pkg string, emb bool) *Kind {
 // Collide: a field whose named type comes from a user package that is NAMED like a package the
 // generated code imports, next to a companion Option field that forces the helper packages in
 // (with the Value sets also fmt/as/fp for String/AsTuple, with Json also encoding/json and
-// net/http), in both field orders, under every visibility and annotation set; plus one struct
-// that uses all of the colliding packages at once.
-func Collide() []*Shape {
+// net/http), in both field orders, under every visibility; plus one struct that uses all of the
+// colliding packages at once. gombok keeps one import table per generated file, so what a struct
+// gets depends on the structs before it: every shape of this family is therefore run in a scratch
+// package of its own (Pack gives the collide-* families a package size of 1).
+func Collide(thorough bool) []*Shape {
 	var out []*Shape
+	valueSets := []Annot{AnnVJL} // Value+Json+GenLabelled generates a superset of what Value does
+	if thorough {
+		valueSets = []Annot{AnnV, AnnVJL}
+	}
 	opt := kindByID("opt-int")
-	for _, a := range []Annot{AnnV, AnnVJL, AnnGW, AnnB, AnnAAC} {
-		for _, pkg := range CollidePkgs {
+	add := func(fam string, a Annot, forms ...Form) {
+		out = append(out, mkShape(fam, a, forms, nil))
+	}
+	real := []string{"option", "as", "fp", "fmt", "json", "http"}
+	for _, pkg := range real {
+		for _, a := range valueSets {
 			for _, vis := range []string{"priv", "pub", "und", "emb"} {
 				x := Form{vis, collideKind(pkg, vis == "emb")}
-				for _, forms := range [][]Form{{x, {"priv", opt}}, {{"priv", opt}, x}, {x, {"pub", opt}}} {
-					if a.ID != "vjl" && forms[1].Vis == "pub" {
-						continue // the public companion only under the richest set
-					}
-					// one scratch package per colliding name: within a package every file then
-					// uses the same local names for its imports
-					s := mkShape("collide-"+pkg, a, forms, nil)
-					out = append(out, s)
-				}
+				add("collide-"+pkg, a, x, Form{"priv", opt})
+				add("collide-"+pkg, a, Form{"priv", opt}, x)
 			}
 		}
+	}
+	for _, pkg := range []string{"option", "fp", "as"} {
+		for _, vis := range []string{"priv", "pub"} {
+			x := Form{vis, collideKind(pkg, false)}
+			add("collide-"+pkg, AnnB, x, Form{"priv", opt})
+			add("collide-"+pkg, AnnB, Form{"priv", opt}, x)
+			if pkg != "as" {
+				add("collide-"+pkg, AnnAAC, x, Form{"priv", opt})
+			}
+			if pkg == "option" {
+				add("collide-"+pkg, AnnGW, x, Form{"priv", opt})
+				add("collide-"+pkg, AnnGW, Form{"priv", opt}, x)
+			}
+		}
+	}
+	// controls: names only the derive generator imports
+	for _, pkg := range []string{"seq", "hlist", "product"} {
+		for _, vis := range []string{"priv", "pub"} {
+			add("collide-"+pkg, AnnVJL, Form{vis, collideKind(pkg, false)}, Form{"priv", opt})
+		}
+	}
+	// two files of one package that use the same package name for different packages
+	cross := func(id string, main []Form, extra string) {
+		s := mkShape("collide-cross-file", AnnVJL, main, nil)
+		s.ID = "vjl/cross-file/" + id
+		s.ExtraFile = extra
+		out = append(out, s)
+	}
+	cross("fp-then-user-fp", []Form{{"priv", opt}},
+		"import (\n\tcfp \"github.com/csgura/fp\"\n\t\"scratchmod/x/fp\"\n)\n\n// @fp.Value\ntype %NX struct {\n\tfb fp.Level\n\tfc cfp.Option[int]\n}\n")
+	cross("user-fp-then-fp", []Form{{"priv", collideKind("fp", false)}, {"priv", opt}},
+		"import \"github.com/csgura/fp\"\n\n// @fp.Value\ntype %NX struct {\n\tfc fp.Option[int]\n}\n")
+	cross("image-then-user-image", []Form{{"emb", kindByID("emb.image.Point")}, {"priv", opt}},
+		"import \"scratchmod/x/image\"\n\n// @fp.Value\ntype %NX struct {\n\tFb image.Level\n}\n")
+	cross("user-image-then-image", []Form{{"pub", collideKind("image", false)}, {"priv", opt}},
+		"import \"image\"\n\n// @fp.Value\ntype %NX struct {\n\tfb image.Point\n}\n")
+	for _, a := range valueSets {
 		for _, vis := range []string{"priv", "pub"} {
 			var forms []Form
 			for _, pkg := range []string{"option", "as", "fmt", "json", "http"} {
 				forms = append(forms, Form{vis, collideKind(pkg, false)})
 			}
-			for _, order := range []string{"first", "last"} {
-				fs := append([]Form{{"priv", opt}}, forms...)
-				if order == "last" {
-					fs = append(append([]Form{}, forms...), Form{"priv", opt})
-				}
-				s := mkShape("collide-all", a, fs, nil)
-				out = append(out, s)
-			}
+			add("collide-all", a, append([]Form{{"priv", opt}}, forms...)...)
+			add("collide-all", a, append(append([]Form{}, forms...), Form{"priv", opt})...)
 		}
 	}
 	return out
@@ -781,6 +818,14 @@ func (s *Shape) DeclFile(pkg, name string) string {
 	fmt.Fprintf(&b, "// shape %s\n\n", s.ID)
 	b.WriteString(s.StructDecl(name))
 	return b.String()
+}
+
+// ExtraDeclFile renders the second source file of a shape ("" if it has none).
+func (s *Shape) ExtraDeclFile(pkg, name string) string {
+	if s.ExtraFile == "" {
+		return ""
+	}
+	return "package " + pkg + "\n\n" + strings.ReplaceAll(s.ExtraFile, "%N", name)
 }
 
 // CommonFile declares the helper types every scratch package shares (no annotations).
